@@ -1239,6 +1239,32 @@ def rule_strings(rep, idx):
                     '; '.join(problems) if problems else '%d word(s)' % len(words))
 
 
+def rule_string_storage(rep, idx):
+    """Each occurrence of a string literal is its own array (X strings are arrays the program may store into through an array
+    parameter): two literals with the same text must not share storage."""
+    f = idx.func('xcmp::CodeBuffer::genString')
+    for text in ('hello', ''):
+        M = CodeGenModel(idx, 'A')
+        M.I.pointer_model = True
+        key = 'two occurrences of %r have separate storage' % text
+        try:
+            M.I.invoke(f, M.cb, [const(32, True, M.regs['A']), ('str', text)])
+            n1 = len([d for d in M.data() if d.cls == 'hexasm::Data'])
+            l1 = [d for d in M.data() if d.cls == 'hexasm::Label']
+            M.I.invoke(f, M.cb, [const(32, True, M.regs['A']), ('str', text)])
+        except (NeedSplit, Thrown, AnalysisBroken) as e:
+            rep.undecided('R6', key, 'genString not interpreted twice: %s' % e, pos(f.node) + ' xcmp::CodeBuffer::genString')
+            continue
+        words = [d for d in M.data() if d.cls == 'hexasm::Data']
+        labels = [d for d in M.data() if d.cls == 'hexasm::Label']
+        names = [repr(d.fields.get('label')) for d in labels]
+        ok = len(words) == 2 * n1 and len(labels) == 2 * len(l1) and len(set(names)) == len(names)
+        rep.add('R6', key, ok, pos(f.node) + ' xcmp::CodeBuffer::genString',
+                '%d data words and labels %s after the second occurrence' % (len(words), names) if ok else
+                'the second occurrence of the literal emits no storage of its own (%d data words, labels %s): both occurrences are the same '
+                'array, so a store through one (an array parameter) changes the other' % (len(words), names))
+
+
 def run(rep, tier):
     idx = cast.load('xcmp.cpp')
     rep.analysed(unit='xcmp.cpp')
@@ -1254,6 +1280,7 @@ def run(rep, tier):
     rule_labels(rep, idx)
     rule_frames(rep, idx)
     rule_strings(rep, idx)
+    rule_string_storage(rep, idx)
     rule_templates(rep, idx)
     rule_call_registers(rep, idx)
     rule_variable_slots(rep, idx)
